@@ -66,3 +66,45 @@ def mut_field_borrows(facts, adt_path):
                     ps = [q for q in s["rv"]["p"]["p"] if isinstance(q, dict) and "f" in q]
                     if ps and ps[-1].get("of") == adt_path:
                         yield f, bi, si, ps[-1]["name"]
+
+
+def result_propagated(facts, fn, bb):
+    """is the Result returned by the call terminating block bb handed on to the caller on its Err side?
+    (a) `?` (Try::branch on it), (b) it is the function's own return value, (c) an explicit
+    `match r { Err(e) => return Err(e[.into()]), .. }`: the Err payload flows into an Err(..) that is returned"""
+    from .sym import sym, mentions
+    from .common import norm
+    t = fn.term(bb)
+    d = t["dest"]
+    if d["p"]:
+        return False
+    dl = d["l"]
+    if dl == 0:
+        return True
+    sy = sym(fn)
+    is_r = lambda x: x[0] == "call" and x[1] == bb
+    for b2, t2 in fn.calls():
+        if norm(cname(t2)).endswith("Try>::branch") and t2["args"] and mentions(sy.operand(t2["args"][0]), is_r):
+            return True
+    for bi, b in enumerate(fn.blocks):
+        if b["cleanup"]:
+            continue
+        for s_ in b["stmts"]:
+            if s_["k"] != "assign":
+                continue
+            rv = s_["rv"]
+            if s_["lhs"]["l"] == 0 and not s_["lhs"]["p"] and rv["k"] == "use":
+                if is_r(sy.operand(rv["a"])):
+                    return True
+            if rv["k"] == "agg" and rv.get("adt") == "core::result::Result" and rv.get("variant") == "Err":
+                e = sy.operand(rv["ops"][0])
+                for _ in range(3):
+                    if e[0] != "l":
+                        break
+                    e2 = sy.origin(e)  # a named snapshot (`Err(err) => ..`) of the payload
+                    if e2 == e:
+                        break
+                    e = e2
+                if mentions(e, lambda x: x[0] == "v" and x[2] == "Err" and is_r(x[1])):
+                    return True
+    return False
